@@ -1,4 +1,5 @@
 import GateModel.Base.Bytes
+import GateModel.Gen.C08
 /-
 C08 model: the client login state machine of gate —
 `initialLoginSessionHandler` (session_client_initial_login.go) up to the hand-over to `authSessionHandler`
@@ -84,7 +85,7 @@ def validName (n : Bytes) : Bool := 2 ≤ n.length && n.length ≤ 16 && n.all n
 
 /-- ServerLogin.Decode: empty name → errEmptyUsername, more than maxUsernameLen*4 bytes → bad string length;
     a decode error ends the read loop (connection closed, no packet) -/
-def decodable (n : Bytes) : Bool := 0 < n.length && n.length ≤ 64
+def decodable (n : Bytes) : Bool := 0 < n.length && n.length ≤ Gate.Gen.C08.maxUsernameLen.toNat * 4
 
 /-- aes.NewCipher accepts exactly these key sizes -/
 def keyLenOk (n : Nat) : Bool := n == 16 || n == 24 || n == 32
@@ -95,7 +96,7 @@ def needsAuth (cfg : Cfg) : Bool :=
 
 /-- authSessionHandler.Activated → startLoginCompletion → completeLoginProtocolPhaseAndInitialize
     (fresh proxy: no duplicate, LoginEvent allowed) -/
-def admit (cfg : Cfg) (name : Bytes) (online : Bool) : List Out :=
+def admitSeq (cfg : Cfg) (name : Bytes) (online : Bool) : List Out :=
   [.gameProfileEvent online] ++ (if cfg.compression then [.setCompression] else []) ++
   [.loginEvent, .registered name, .success name online]
 
@@ -111,7 +112,7 @@ def step (cfg : Cfg) (env : Env) (s : St) : In → St × List Out
       else if cfg.preLogin == .denied then closeWith [.preLoginEvent name, .disconnect .denied]
       else if needsAuth cfg then
         ({ phase := .encSent, name := name, verify := nonce }, [.preLoginEvent name, .encReq nonce])
-      else ({ phase := .successSent, name := name }, .preLoginEvent name :: admit cfg name false)
+      else ({ phase := .successSent, name := name }, .preLoginEvent name :: admitSeq cfg name false)
     | _ => closeWith [.close]                    -- assertState / authSessionHandler default case
   | .encResp tok secret =>
     match s.phase with
@@ -128,7 +129,7 @@ def step (cfg : Cfg) (env : Env) (s : St) : In → St × List Out
             | .offline => closeWith [.encOn sec, .hasJoined s.name sec, .disconnect .onlineOnly]
             | .badProfile => closeWith [.encOn sec, .hasJoined s.name sec, .disconnect .unable]
             | .online =>
-              ({ s with phase := .successSent }, [.encOn sec, .hasJoined s.name sec] ++ admit cfg s.name true)
+              ({ s with phase := .successSent }, [.encOn sec, .hasJoined s.name sec] ++ admitSeq cfg s.name true)
     | _ => closeWith [.close]
   | .pluginResp _ => (s, [])                     -- unknown id: ignored by both handlers
   | .ack =>
